@@ -871,6 +871,108 @@ func (g *seqGen) opCollect(vi int) {
 	}))
 }
 
+// genCollectRace: a deterministic surrogate for "a deletion is scheduled between two sends of one
+// Collect". Children are created under a constant or low-entropy hash (several per bucket); Collect runs
+// in a goroutine on an UNBUFFERED channel; after its first one or two sends it is parked on the next
+// send; then deletions / resets / lookups are issued from another goroutine. With the read lock held
+// for the whole Collect they wait; if it was released early they get through and compact the buckets
+// Collect is still reading. No false alarm: whatever the timing, the collected children must be the
+// children of one state the map passes through (checked by the runner), never a nil Metric.
+//
+//	(5 hmode names conscodes ops results n1 collected)
+func genCollectRace(r *emit.Rng) (string, bool, []string) {
+	g := &seqGen{r: r, pm: 0, ids: map[prometheus.Metric]int{}, errs: map[int]bool{}}
+	typ := r.Intn(4)
+	nn := 1
+	if r.Chance(1, 3) {
+		nn = 2
+	}
+	g.names = []string{"a", "b"}[:nn]
+	codes := make([]int, nn)
+	hmode := 1
+	if r.Chance(1, 3) {
+		hmode = 2
+	}
+	g.pool = []string{"", "a", "b", "ab"}
+	g.views = []*view{{a: newVec(typ, hmode, g.names, codes, r.Bool(), nil), curried: make([]bool, nn)}}
+	for i, n := 0, 5+r.Intn(5); i < n; i++ {
+		g.opLookup()
+	}
+	n1 := len(g.ops)
+	ch := make(chan prometheus.Metric)
+	go func() {
+		defer close(ch)
+		defer func() { recover() }()
+		g.views[0].a.collect(ch)
+	}()
+	var got []prometheus.Metric
+	for i, k := 0, 1+r.Intn(2); i < k; i++ {
+		m, ok := <-ch
+		if !ok {
+			break
+		}
+		got = append(got, m)
+	}
+	dd := make(chan struct{})
+	nd := 1 + r.Intn(3)
+	go func() {
+		defer close(dd)
+		for j := 0; j < nd; j++ {
+			switch x := g.r.Intn(10); {
+			case x < 7:
+				g.opDelete()
+			case x < 8:
+				v := g.views[0]
+				g.push(emit.C(6, emit.I(0)), g.exec(func() string { v.a.reset(); return emit.C(4) }))
+			default:
+				g.opLookup()
+			}
+		}
+	}()
+	select {
+	case <-dd:
+	case <-time.After(3 * time.Millisecond):
+	}
+	for m := range ch {
+		got = append(got, m)
+	}
+	<-dd
+	type ent struct {
+		vals []string
+		id   int
+	}
+	var es []ent
+	for _, m := range got {
+		if m == nil {
+			es = append(es, ent{nil, 999997})
+			continue
+		}
+		vals, _ := labelValuesOf(m, g.names)
+		id, ok := g.ids[m]
+		if !ok {
+			id = 999999
+		}
+		es = append(es, ent{vals, id})
+	}
+	sort.SliceStable(es, func(i, j int) bool {
+		if es[i].id != es[j].id {
+			return es[i].id < es[j].id
+		}
+		return lessVals(es[i].vals, es[j].vals)
+	})
+	it := make([]string, len(es))
+	for i, e := range es {
+		it[i] = emit.Tup(emit.SL(e.vals), emit.I(e.id))
+	}
+	cs := make([]string, nn)
+	for i, c := range codes {
+		cs[i] = emit.I(c)
+	}
+	term := emit.C(5, emit.I(hmode), emit.SL(g.names), emit.L(cs), emit.L(g.ops), emit.L(g.res), emit.I(n1), emit.L(it))
+	return term, len(g.ids) >= 2 && g.delHit, []string{"type:" + typeNames[typ], fmt.Sprintf("hmode:%d", hmode),
+		fmt.Sprintf("children:%d", len(g.ids)), fmt.Sprintf("racing-ops:%d", nd)}
+}
+
 func genSeqCase(r *emit.Rng, pm int, invalidCommon bool) (string, bool, []string) {
 	g := &seqGen{r: r, pm: pm, ids: map[prometheus.Metric]int{}, errs: map[int]bool{}}
 	typ := r.Intn(4)
@@ -1334,6 +1436,7 @@ func runC07(c *cli.Ctx) error {
 	rSeq, rMal, rStress, rUTF := root.Fork(), root.Fork(), root.Fork(), root.Fork()
 	rSched := root.Fork()
 	rLin := root.Fork()
+	rColl := root.Fork()
 
 	w := emit.NewWriter(c.Out, "C07", "seq")
 	for i := 0; i < 600*c.Scale; i++ {
@@ -1390,5 +1493,13 @@ func runC07(c *cli.Ctx) error {
 	if err := runSched(c, rSched); err != nil {
 		return err
 	}
-	return runStressLin(c, rLin)
+	if err := runStressLin(c, rLin); err != nil {
+		return err
+	}
+	w = emit.NewWriter(c.Out, "C07", "collectrace")
+	for i := 0; i < 80*c.Scale; i++ {
+		term, nt, tags := genCollectRace(rColl.Fork())
+		w.Add(term, nt, tags...)
+	}
+	return w.Flush()
 }
